@@ -1800,7 +1800,8 @@ def c16_corr(res, exe, driver, tier, seed, tmp):
                 stats["switched_between_reads"] += 1
             expect = tio_key(st["left"])
         if not stops:
-            raise InfraError("rawmode: the child never paused after a read (%d results)" % len(rl))
+            raise InfraError("rawmode: the child never paused after a read (%d results) keys=%r meta=%r obs=%r statuses=%r wedged=%r" % (
+                len(rl), c.keys, {k2: v for k2, v in c.meta.items() if k2 != "between"}, raw["obs"], raw["statuses"], raw["wedged"]))
     res.distribution.update({"oracle": stats, "scripts": len(cases)})
     res.rule = ("rawmode: 1-4 reads on one editor; each read is a short key prefix ended by Enter, C-d on an empty line, C-c, an "
                 "undecodable byte, a validator error, or Tab/Enter hitting a scripted helper panic at its k-th call; the prefix may contain the "
